@@ -195,7 +195,13 @@ def plan_C19(seed, run, engine, tier="quick", entry=None):
     finally:
         P._FORCED["entry"] = None
     degen = choice(rng, G.DEGEN_KINDS)
-    kw = {}
+    kw, kw_fi = {}, {}
+    if e[1] in ("Poisson", "Gamma") and rng.random() < 0.3:
+        # exponential links: a constant target of extreme magnitude is the degenerate structure that
+        # matters (the first trial step of a line search overflows); one plan in 14 reaches it otherwise
+        degen = "const_y"
+        if True in e[4] and rng.random() < 0.7:
+            kw_fi = dict(fi=True)
     if e[0] in ("AndersonCD", "MultiTaskBCD", "GramCD") and rng.random() < 0.2:
         # the blown-up column with bounded liveness: overdetermined, convex
         convex = [v for v in e[2] if v in ("L1", "WL1", "EN", "L1+", "L21")]
@@ -203,7 +209,7 @@ def plan_C19(seed, run, engine, tier="quick", entry=None):
             degen = "scale_1e9"
             pp = int(rng.integers(2, 12))
             kw = dict(variant=choice(rng, convex), p=pp, n=pp + int(rng.integers(2, 12)))
-    prob = G.gen_problem(rng, e, degen=degen, **kw)
+    prob = G.gen_problem(rng, e, degen=degen, **{**kw_fi, **kw})
     if prob["storage"] == "csc" and rng.random() < 0.5:
         # how the degenerate structure is *stored* matters: explicit zeros, unsorted indices,
         # 64-bit index arrays
